@@ -146,15 +146,25 @@ Proof. split; vm_compute; reflexivity. Qed.
 Example C12_leak_witness : spawned Pinned 16 (repeat true 5) = 80 /\ spawned Repaired 16 (repeat true 5) = 16.
 Proof. split; vm_compute; reflexivity. Qed.
 
-(* non-vacuity of the source-level theorems: the five calls parse with these shapes *)
+(* non-vacuity of the source-level theorems, stated independently of how the source spells the
+   calls: the writer goroutine of writeSTL tests its writes and drains the channel on an error;
+   for ToSVG / writeSVG and ToSTL / writeSTL the pair is in order - a writer that can fail to
+   open has a driver that returns on the error (either disjunct may be the one that holds: ToSVG's
+   handler need not return as long as writeSVG cannot fail before its goroutine is started). *)
 Example C12_source_shapes :
-  option_map w_opens (parse_writer (strip writeSTL)) = Some 2 /\
-  option_map (fun w => k_fallible (w_cons w)) (parse_writer (strip writeSTL)) = Some true /\
-  option_map (fun w => List.length (k_final (w_cons w))) (parse_writer (strip writeSTL)) = Some 3 /\
-  option_map w_opens (parse_writer (strip writeSVG)) = Some 0 /\
-  option_map d_returns (parse_driver (strip ToSVG)) = Some false /\
-  option_map d_returns (parse_driver (strip ToSTL)) = Some true.
-Proof. repeat split; vm_compute; reflexivity. Qed.
+  (exists w, parse_writer (strip writeSTL) = Some w /\ k_fallible (w_cons w) = true /\ k_drain (w_cons w) = true) /\
+  (exists d w, parse_driver (strip ToSVG) = Some d /\ parse_writer (strip writeSVG) = Some w /\
+     (w_opens w = 0 \/ d_returns d = true) /\ k_drain (w_cons w) = true) /\
+  (exists d w, parse_driver (strip ToSTL) = Some d /\ parse_writer (strip writeSTL) = Some w /\
+     (w_opens w = 0 \/ d_returns d = true) /\ k_drain (w_cons w) = true).
+Proof.
+  split; [|split].
+  - eexists. split; [vm_compute; reflexivity|]. split; vm_compute; reflexivity.
+  - eexists. eexists. split; [vm_compute; reflexivity|]. split; [vm_compute; reflexivity|].
+    split; [first [left; vm_compute; reflexivity | right; vm_compute; reflexivity] | vm_compute; reflexivity].
+  - eexists. eexists. split; [vm_compute; reflexivity|]. split; [vm_compute; reflexivity|].
+    split; [first [left; vm_compute; reflexivity | right; vm_compute; reflexivity] | vm_compute; reflexivity].
+Qed.
 
 (* The semantics is not vacuously safe: run on the PINNED error path (the goroutine of writeSTL
    with `return` instead of `for range c {}; return`) with a write error at item 1 of three
